@@ -134,13 +134,14 @@ func (s *Server) addCloser(f func()) {
 }
 
 type action struct {
-	reply  []byte // nil = no reply
-	kind   string // ok... | silent | close | rst | half | garbage | http
-	http   int
-	delay  time.Duration
-	ql     *QueryLog
-	fin    bool // close the stream connection after the reply
-	stream bool // DoH: the header is flushed before the body (no Content-Length: chunked / length unknown), body in two pieces
+	reply     []byte // nil = no reply
+	kind      string // ok... | silent | close | rst | half | garbage | http
+	http      int
+	delay     time.Duration
+	ql        *QueryLog
+	fin       bool // close the stream connection after the reply
+	junkFirst bool // stream transports: a complete frame that does not decode travels in front of the reply, in the same write
+	stream    bool // DoH: the header is flushed before the body (no Content-Length: chunked / length unknown), body in two pieces
 }
 
 // handle decodes a query, decides what to do and logs it.
@@ -185,7 +186,7 @@ func (s *Server) decide(transport string, conn int64, raw []byte) *action {
 		}
 	}
 	ql.Kind = d.Kind
-	a := &action{kind: d.Kind, http: d.HTTP, delay: time.Duration(d.Delay) * time.Millisecond, ql: ql, fin: d.Fin, stream: d.Stream}
+	a := &action{kind: d.Kind, http: d.HTTP, delay: time.Duration(d.Delay) * time.Millisecond, ql: ql, fin: d.Fin, stream: d.Stream, junkFirst: d.JunkFirst}
 	switch d.Kind {
 	case "silent", "close", "rst", "http":
 		return a
@@ -406,6 +407,11 @@ func (s *Server) serveStream(transport string, raw net.Conn, cfg *tls.Config) {
 				time.Sleep(50 * time.Millisecond)
 				c.Close()
 				return
+			}
+			if a.junkFirst && len(a.reply) >= 2 {
+				// 12 octets: the reply's id, "response", one question announced - and no question
+				junk := []byte{0, 12, a.reply[0], a.reply[1], 0x81, 0x80, 0, 1, 0, 0, 0, 0, 0, 0}
+				frame = append(junk, frame...)
 			}
 			c.Write(frame)
 			wm.Unlock()
